@@ -244,7 +244,10 @@ func vttGenModel(r *fw.Rand, forWriter bool) vttModel {
 					tsOn = true
 				}
 				if tsOn && pi > 0 {
-					ts += int64(r.Range(1, 5000))
+					// round 13: one later timestamp in four repeats the one before it (two runs from the same instant)
+					if ts == 0 || !r.P(1, 4) {
+						ts += int64(r.Range(1, 5000))
+					}
 					seg.TS = s + ts
 					if seg.TS <= 0 {
 						seg.TS = 1
